@@ -11,8 +11,9 @@ oracle    `violations_of(step, columns)`: the rule predicates below, evaluated o
 rejected  = the builder call raises ValueError / KeyError / AssertionError / TypeError / NameError (NameError is what
           the expression parser raises for an unknown column; it is raised by the builder call when the step is added,
           which is all the property asks).  Any other exception type is reported.
-later     every pipeline the builder ACCEPTED is evaluated with Pandas on a small null-free data set (thorough: all;
-          quick: prefixes of depth <= 1 and a seeded 1/12 of the depth-2 prefixes); provided the prefix alone evaluates
+scope     thorough: every prefix.  quick: every prefix of depth <= 1, every depth-2 prefix the builder simplifies, a seeded third of the rest.
+later     every pipeline the builder ACCEPTED is evaluated with Pandas on a small null-free data set (prefixes of depth <= 1
+          always; depth 2: a seeded 1/2 in thorough, 1/24 in quick); provided the prefix alone evaluates
           to its declared columns, the extended pipeline must not raise a RULE error (is_rule_error: unknown column,
           non-aggregating / invalid function, join-key / concat-column complaints); other evaluation failures (e.g. a
           dtype error inside pandas) belong to other properties and are only counted in the evidence.
@@ -323,6 +324,18 @@ def make_steps(columns: List[str]) -> List[Dict[str, Any]]:
         S.append(_step("R5", "common-non-key-checked", "V", "natural_join", jn([c0, c1, "rv"], [c0], check=True)))
         S.append(_step("R5", "common-non-key-unchecked", "C", "natural_join", jn([c0, c1, "rv"], [c0], check=False)))
         S.append(_step("R5", "all-common-are-keys-checked", "C", "natural_join", jn([c0, c1, "rv"], [c0, c1], check=True)))
+    # differently named key pair (left c0 = right 'rk') with the check requested: a column that is named like ONE side's key and
+    # occurs on both sides is a common non-key column (it is an equality key on one side only)
+    S.append(_step("R5", "renamed-key-left-key-name-also-on-right-checked", "V", "natural_join", jn(["rk", c0, "rv"], [[c0, "rk"]], check=True)))
+    S.append(_step("R5", "renamed-key-left-key-name-also-on-right-unchecked", "C", "natural_join", jn(["rk", c0, "rv"], [[c0, "rk"]], check=False)))
+    S.append(_step("R5", "renamed-key-no-common-column-checked", "C", "natural_join", jn(["rk", "rv"], [[c0, "rk"]], check=True)))
+    if c1:
+        # mirrored: the RIGHT key is named like another column of the left table
+        S.append(_step("R5", "renamed-key-right-key-name-also-on-left-checked", "V", "natural_join", jn([c1, "rv"], [[c0, c1]], check=True)))
+        S.append(_step("R5", "renamed-key-right-key-name-also-on-left-unchecked", "C", "natural_join", jn([c1, "rv"], [[c0, c1]], check=False), evaluate=False))  # build time only: the right key would have to carry c0's values AND be coalesced with the left column c1 of another type
+        # both at once: keys (c0, rk) and (c1, c1): c1 is a key on both sides, c0 on the left only
+        S.append(_step("R5", "renamed-key-plus-same-named-key-checked", "C", "natural_join", jn(["rk", c1, "rv"], [[c0, "rk"], c1], check=True)))
+        S.append(_step("R5", "renamed-key-plus-same-named-key-left-name-on-right-checked", "V", "natural_join", jn(["rk", c1, c0, "rv"], [[c0, "rk"], c1], check=True)))
     # ---- R6 concat
     cc = lambda right: {"right_columns": right}  # noqa: E731
     S.append(_step("R6", "extra-column", "V", "concat_rows", cc(cols + ["extra_c"])))
@@ -623,18 +636,41 @@ def prefixes(tier: str) -> List[Dict[str, Any]]:
     return out
 
 
-def _evaluate_here(spec, tier: str, seed: int) -> bool:
-    if tier == "thorough" or len(spec["steps"]) <= 1:
+def _is_simplified_prefix(spec) -> bool:
+    """prefixes whose last step the builder treats specially: order_rows without limit, select after select/drop, extend after extend"""
+    st = spec["steps"]
+    if st and st[-1][0] == "order_rows" and st[-1][1].get("limit") is None:
         return True
+    if len(st) == 2 and st[1][0] == "select_columns" and st[0][0] in ("select_columns", "drop_columns"):
+        return True
+    return len(st) == 2 and st[0][0] == "extend" and st[1][0] == "extend"
+
+
+def _shard(spec, seed: int, n: int) -> bool:
     from cbc import common
 
-    return (int(common.spec_hash(spec), 16) + seed) % 12 == 0
+    return (int(common.spec_hash(spec), 16) + seed) % n == 0
+
+
+def _build_here(spec, tier: str, seed: int) -> bool:
+    """thorough: every prefix.  quick: every prefix of depth <= 1, every depth-2 prefix the builder simplifies, and a seeded
+    third of the other depth-2 prefixes."""
+    return tier == "thorough" or len(spec["steps"]) <= 1 or _is_simplified_prefix(spec) or _shard(spec, seed, 3)
+
+
+def _evaluate_here(spec, tier: str, seed: int) -> bool:
+    """Pandas evaluation of the accepted pipelines: prefixes of depth <= 1 always; depth 2: a seeded 1/2 (thorough) / 1/24 (quick)."""
+    if len(spec["steps"]) <= 1:
+        return True
+    return _shard(spec, seed, 2 if tier == "thorough" else 24)
 
 
 def bounded(rep: Report, tier: str, seed: int) -> None:
     from cbc import common
 
-    specs = prefixes(tier)
+    all_specs = prefixes(tier)
+    specs = [s_ for s_ in all_specs if _build_here(s_, tier, seed)]
+    rep.extra["c26_prefixes_enumerated"] = len(all_specs)
     jobs = [{"spec": s, "evaluate": _evaluate_here(s, tier, seed)} for s in specs]
     chunks = [jobs[i : i + 40] for i in range(0, len(jobs), 40)]
     if os.environ.get("VERIF_SERIAL") == "1":
@@ -702,9 +738,9 @@ def bounded(rep: Report, tier: str, seed: int) -> None:
     rep.violations.sort(key=lambda v: (v.key, len(v.replay["case"]["spec"]["steps"]), len(v.what)))
 
 
-def scope_sizes(tier: str) -> Dict[str, int]:
+def scope_sizes(tier: str, seed: int = 0) -> Dict[str, int]:
     ps = prefixes(tier)
-    return {"prefixes": len(ps), "steps_on_4_columns": len(make_steps(["g", "k", "x", "y"]))}
+    return {"prefixes_enumerated": len(ps), "prefixes": sum(1 for s_ in ps if _build_here(s_, tier, seed)), "steps_on_4_columns": len(make_steps(["g", "k", "x", "y"]))}
 
 
 def replay_case(case: Dict[str, Any]) -> bool:
